@@ -545,7 +545,15 @@ fn out_kind(o: &Option<SimOut>) -> &'static str {
 
 fn sim_popen(e: SimExec) -> Result<SimPopen, PopenError> {
     let argv0 = e.command.to_string_lossy().into_owned();
-    let exists = Path::new(&e.command).exists();
+    // (what the kernel asks of something that is to be executed: a regular file with an execute
+    // bit - a directory of that name, or a file without one, gives EACCES)
+    let (exists, exec_errno) = match std::fs::metadata(&e.command) {
+        Ok(m) => {
+            use std::os::unix::fs::PermissionsExt;
+            (m.is_file() && m.permissions().mode() & 0o111 != 0, 13)
+        }
+        Err(_) => (false, 2),
+    };
     let cwd_ok = e.cwd.as_ref().map(|c| c.is_dir()).unwrap_or(true);
     // read a file given as stdin (detached test cases) before entering the world
     let mut file_data: Option<Vec<u8>> = None;
@@ -589,8 +597,9 @@ fn sim_popen(e: SimExec) -> Result<SimPopen, PopenError> {
             return Err(io::Error::from_raw_os_error(errno));
         }
         if !exists || !cwd_ok {
-            w.log(LogEv::SpawnFailed { nth, errno: 2 });
-            return Err(io::Error::from_raw_os_error(2));
+            let errno = if !exists { exec_errno } else { 2 };
+            w.log(LogEv::SpawnFailed { nth, errno });
+            return Err(io::Error::from_raw_os_error(errno));
         }
         let pid = w.procs.len() as u32;
         let stdin_src = match stdin_kind {
